@@ -13,8 +13,14 @@ pool's connect) over the abstract state (connection present?, owner pid == curre
          and a foreign handle is detached before anything that can fail).
  PARK    an inherited connection is parked in forked_connections (kept referenced, not closed: closing it would tear down
          the parent's server session) exactly when it is foreign.
- SUB     pools that override __init__ without calling Pool.__init__ still initialise `con` to None (SQLitePool), so the pid
+ PARK    ... and at disconnect(): under the scenario "the pool holds a foreign connection" no close() is reachable and the handle is
+         parked; under "own connection" it is closed (Database.disconnect() in a child must not write the quit message on the
+         parent's socket).
+ SUB     pools that override __init__ without calling Pool.__init__ still initialise `con` and `pid` to None (SQLitePool), so the pid
          comparison is never evaluated on an unset attribute; every pool class that overrides connect compares pids.
+ PATH    the file name handed to SQLitePool is absolute on every path (parent and child mean the same file after a chdir).
+ SESSION a session open at the fork exists in both processes and holds the handle itself: every SessionCache method that hands
+         the held handle to the provider compares the opening process with os.getpid().  (Known finding on the pinned tree.)
 """
 NOT_DECIDED = "what the DB-API drivers do with a socket shared across fork; visibility of committed data between processes"
 
